@@ -2173,6 +2173,15 @@ def _now(I, *a, **k):
     return Opaque("time")
 
 
+# abstract per-row maps of a (combined) reparameterisation on two
+# coordinates: forward GA, GB with log-Jacobian GJ; inverse HA, HB, HJ
+for _g in ("GA", "GB", "GJ", "HA", "HB", "HJ"):
+    _gf = z3.Function(_g, z3.RealSort(), z3.RealSort(), z3.RealSort())
+    LIB["spec." + _g] = E.LibFunc(
+        "spec." + _g, (lambda I, a, b, _gf=_gf: _gf(to_real(_val(a)),
+                                                    to_real(_val(b)))))
+
+
 @lib("numpy.mean")
 def _np_mean_opaque(I, x, **kw):
     if isinstance(x, Opaque):
